@@ -24,6 +24,15 @@ pub fn stub_dh(_sk: &x25519_dalek::StaticSecret, _pk: &x25519_dalek::PublicKey) 
     }
 }
 
+/// `PublicKey::from(&StaticSecret)` is the base-point ladder (19 min even on a concrete scalar); the
+/// value of pk(skR) is irrelevant on the failure paths examined here
+pub fn stub_pk_from<'a>(_sk: &'a x25519_dalek::StaticSecret) -> x25519_dalek::PublicKey
+where
+    'a: 'a, // makes the lifetime early-bound, like the impl's
+{
+    x25519_dalek::PublicKey::from([9u8; 32])
+}
+
 fn is_zero32(b: &[u8; 32]) -> bool {
     let mut z = true;
     let mut i = 0;
@@ -70,6 +79,7 @@ macro_rules! decap_zero_harness {
         #[kani::unwind(34)]
         #[kani::stub(zeroize::optimization_barrier, noop_barrier)]
         #[kani::stub(x25519_dalek::StaticSecret::diffie_hellman, stub_dh)]
+        #[kani::stub(<x25519_dalek::PublicKey as core::convert::From<&x25519_dalek::StaticSecret>>::from, stub_pk_from)]
         pub fn $name() {
             let skb: [u8; 32] = kani::any();
             let encb: [u8; 32] = kani::any();
